@@ -798,6 +798,14 @@ func (e *SpecEnv) evalCall(n ECall) Val {
 	case "allocmark":
 		// allocmark(): the allocation counter now (every object allocated later has a larger id)
 		return Val{T: e.st.alloc, S: sInt}
+	case "objid":
+		// objid(p): allocation id of the object p points to (0 for nil); comparable with allocmark()
+		p := arg(0)
+		if p.S != nil && p.S.K == KPtr {
+			return Val{T: fmt.Sprintf("(ite (is-pobj %[1]s) (pobj.id %[1]s) 0)", p.T), S: sInt}
+		}
+		g.errorf("spec: objid of a non-pointer: %s", n.String())
+		return Val{T: "0", S: sInt}
 	case "arrayid":
 		// arrayid(s): identity of the backing array of slice s (0 for nil); comparable with allocmark()
 		p := arg(0)
